@@ -195,88 +195,114 @@ func childViaIndex(c *Ctx, seg ssa.Value) bool {
 	return isIdx
 }
 
+// matcherFamily: the segment matcher and the helpers it reaches by static calls inside its package.
+func matcherFamily(c *Ctx) map[*ssa.Function]bool {
+	g := an.NewGraph(c.P)
+	fam := map[*ssa.Function]bool{}
+	for fn := range g.Reach([]*ssa.Function{c.A.SegmentMatch}, func(_ *ssa.Function, e an.Edge) bool { return e.Kind == "static" }) {
+		if strings.HasPrefix(an.FuncKey(fn), "syntax.") {
+			fam[fn] = true
+		}
+	}
+	return fam
+}
+
 // ruleCaptureDiscipline is C01.R2.
 func ruleCaptureDiscipline(c *Ctx, rule string) {
 	a := c.A
 	f := a.SegmentMatch
 	set := c.P.MustFunc("types.(*Context).Set")
-	c.R.Rule(c.R.Property+"."+rule+"a", 3, "captures are exactly the pattern's capturing (non '-') parameters, keyed by the segment's name, valued with a prefix of the remaining path")
-	c.R.Rule(c.R.Property+"."+rule+"b", 3, "every accepting exit of a parameter segment captured its value or ignores the name")
-	ignoreTrue := func(b *ssa.BasicBlock, succ int, want bool) bool {
-		cond, onTrue := an.EdgeCond(b, succ)
-		if cond == nil {
-			return false
-		}
-		v, neg := stripNot(cond)
-		return an.AP(v) == "recv.ignoreName" && (onTrue != neg) == want
+	c.R.Rule(c.R.Property+"."+rule+"a", 1, "captures are exactly the pattern's capturing (non '-') parameters, keyed by the segment's name, valued with a prefix of the remaining path")
+	c.R.Rule(c.R.Property+"."+rule+"b", 1, "every accepting exit of a parameter segment captured its value or ignores the name")
+	fam := matcherFamily(c)
+	ignoreEdge := func(b *ssa.BasicBlock, succ int, want bool) bool {
+		return edgeHas(b, succ, func(cond ssa.Value, truth bool) bool {
+			return an.AP(cond) == "recv.ignoreName" && truth == want
+		})
 	}
-	var sets []ssa.Instruction
-	an.AllInstrs(f, func(in ssa.Instruction) {
-		call, ok := calleeIs(in, set)
-		if !ok {
-			return
-		}
-		sets = append(sets, in)
-		ctxAP := an.AP(call.Args[0])
-		key := an.AP(call.Args[1])
-		val := c.O.Of(call.Args[2])
-		okKey := key == "recv.Name"
-		okDom := an.DominatedByEdge(in, func(b *ssa.BasicBlock, succ int) bool { return ignoreTrue(b, succ, false) })
-		okVal := false
-		vs := val.String()
-		if vs == ctxAP+".Path" {
-			okVal = true
-		}
-		if val.Op == "slice" && len(val.Args) == 3 && val.Args[0].String() == ctxAP+".Path" && val.Args[1].String() == "-" {
-			okVal = true
-		}
-		good := okKey && okDom && okVal
-		var why []string
-		if !okKey {
-			why = append(why, "key is "+key+", not the segment's name")
-		}
-		if !okDom {
-			why = append(why, "not behind the !ignoreName test")
-		}
-		if !okVal {
-			why = append(why, "value "+vs+" is not a prefix of the remaining path")
-		}
-		c.R.Add(rule+"a", c.fk(f), "set:key="+key+"/value="+vs, c.pos(in), good, ifelse(good, "key is recv.Name, behind !ignoreName, value is a prefix of ctx.Path", "capture breaks the discipline: "+strings.Join(why, "; ")))
-	})
-	// accepting exits of parameter kinds
-	strKind := a.Kind("String")
-	for _, r := range an.Returns(f) {
-		k, isConst := r.Results[0].(*ssa.Const)
-		if !isConst || k.Value == nil || k.Value.ExactString() != "true" {
-			continue
-		}
-		path := (&an.Query{
-			Target: func(in ssa.Instruction) bool { return in == ssa.Instruction(r) },
-			Block: func(in ssa.Instruction) bool {
-				for _, s := range sets {
-					if s == in {
-						return true
+	isPathPrefix := func(v ssa.Value) bool {
+		var judge func(v ssa.Value, depth int) bool
+		judge = func(v ssa.Value, depth int) bool {
+			if depth > 3 {
+				return false
+			}
+			if args := argsOfParam(v); len(args) > 0 {
+				for _, av := range args {
+					if !judge(av, depth+1) {
+						return false
 					}
 				}
-				return false
-			},
-			BlockEdge: func(b *ssa.BasicBlock, succ int) bool {
-				if ignoreTrue(b, succ, true) {
-					return true
-				}
-				// the literal kind captures nothing
-				cond, onTrue := an.EdgeCond(b, succ)
-				if cond == nil {
-					return false
-				}
-				x, kk, eq, ok := an.CondAtom(cond)
-				return ok && an.AP(x) == "recv.Type" && an.ConstKey(kk) == strKind && eq == onTrue
-			},
-		}).Search(an.Entry(f))
-		o := c.R.Add(rule+"b", c.fk(f), "return-true/captured-or-ignored", c.pos(r), path == nil, ifelse(path == nil, "reached only through a capture, the ignoreName edge, or the literal kind", "a parameter segment can accept without capturing its value: the parameter is missing from the request"))
-		if path != nil {
-			o.Path = c.P.PathString(path)
+				return true
+			}
+			t := c.O.Of(v)
+			vs := t.String()
+			if strings.HasSuffix(vs, ".Path") && (strings.HasPrefix(vs, "p:") || strings.HasPrefix(vs, "param:")) {
+				return true
+			}
+			return t.Op == "slice" && len(t.Args) == 3 && strings.HasSuffix(t.Args[0].String(), ".Path") && t.Args[1].String() == "-"
 		}
+		return judge(v, 0)
+	}
+	var sets []ssa.Instruction
+	for fn := range fam {
+		fn := fn
+		an.AllInstrs(fn, func(in ssa.Instruction) {
+			call, ok := calleeIs(in, set)
+			if !ok {
+				return
+			}
+			sets = append(sets, in)
+			key := an.AP(call.Args[1])
+			okKey := key == "recv.Name"
+			okDom := an.DominatedByEdgeDeep([]*ssa.Function{f}, in, func(b *ssa.BasicBlock, succ int) bool { return ignoreEdge(b, succ, false) }, deepDefault)
+			okVal := isPathPrefix(call.Args[2])
+			good := okKey && okDom && okVal
+			var why []string
+			if !okKey {
+				why = append(why, "key is "+key+", not the segment's name")
+			}
+			if !okDom {
+				why = append(why, "not behind the !ignoreName test")
+			}
+			if !okVal {
+				why = append(why, "value "+c.O.Of(call.Args[2]).String()+" is not a prefix of the remaining path")
+			}
+			c.R.Add(rule+"a", c.fk(fn), "set:key="+key, c.pos(in), good, ifelse(good, "key is recv.Name, behind !ignoreName, value is a prefix of ctx.Path", "capture breaks the discipline: "+strings.Join(why, "; ")))
+		})
+	}
+	// accepting exits of parameter kinds: from the matcher's entry, every path to a possibly-true return passed a
+	// capture, the ignoreName edge, or the literal-kind edge
+	strKind := a.Kind("String")
+	isSet := func(in ssa.Instruction) bool {
+		for _, s := range sets {
+			if s == in {
+				return true
+			}
+		}
+		return false
+	}
+	path := (&an.Query{
+		Deep:  deepDefault,
+		Block: isSet,
+		TargetReturn: func(r *ssa.Return, val func(ssa.Value) (bool, bool)) bool {
+			known, v := val(r.Results[0])
+			return !known || v
+		},
+		BlockEdge: func(b *ssa.BasicBlock, succ int) bool {
+			if ignoreEdge(b, succ, true) {
+				return true
+			}
+			cond, onTrue := an.EdgeCond(b, succ)
+			if cond == nil {
+				return false
+			}
+			x, kk, eq, ok := an.CondAtom(cond)
+			return ok && an.AP(x) == "recv.Type" && an.ConstKey(kk) == strKind && eq == onTrue
+		},
+	}).Search(an.Entry(f))
+	o := c.R.Add(rule+"b", c.fk(f), "accepting-exit/captured-or-ignored", c.P.Pos(f.Pos()), path == nil, ifelse(path == nil, "every accepting path went through a capture, the ignoreName edge, or the literal kind", "a parameter segment can accept without capturing its value: the parameter is missing from the request"))
+	if path != nil {
+		o.Path = c.P.PathString(path)
 	}
 }
 
@@ -418,7 +444,47 @@ func ruleHandlerLookup(c *Ctx, rule string) {
 		hT := c.O.Of(h)
 		okC, isConst := okv.(*ssa.Const)
 		if !isConst {
-			c.R.Add(rule, c.fk(f), "return/ok-not-constant", c.pos(r), false, "the served flag of Tree.Handler is not a constant on this return: cannot relate it to the handler")
+			// single tail: `h, found := node.handlers[method]; if !found { h = node.handlers[405] }; return node, h, found`
+			good, why := false, "the served flag is "+c.O.Of(okv).String()
+			if ex, isEx := okv.(*ssa.Extract); isEx && ex.Index == 1 {
+				if lk, isLk := ex.Tuple.(*ssa.Lookup); isLk && lk.CommaOk {
+					base, isH := fieldLoadOf(lk.X, a.NodeT, a.FHandlers)
+					if isH && base == an.AP(node) && lk.Index == ssa.Value(methodP) {
+						good, why = true, ""
+						// the handler: the found value on the found edge, the node's 405 entry otherwise
+						phi, isPhi := h.(*ssa.Phi)
+						if !isPhi {
+							good, why = false, "the handler is not selected by the found flag"
+						} else {
+							for i, e := range phi.Edges {
+								pb := phi.Block().Preds[i]
+								foundEdge := false
+								for si := range pb.Succs {
+									if pb.Succs[si] == phi.Block() && commaOkEdge(pb, si, func(m, k ssa.Value) bool { return m == lk.X && k == lk.Index }) {
+										foundEdge = true
+									}
+								}
+								switch x := e.(type) {
+								case *ssa.Extract:
+									if x.Tuple != ssa.Value(lk) || x.Index != 0 {
+										good, why = false, "a handler of another lookup is returned"
+									}
+									// arrives from the block of the lookup (found) — the other edge overrides it
+								case *ssa.Lookup:
+									b2, isH2 := fieldLoadOf(x.X, a.NodeT, a.FHandlers)
+									kc, isC := x.Index.(*ssa.Const)
+									if !(isH2 && b2 == base && isC && an.ConstKey(kc) == a.NotAllowedKey) || foundEdge {
+										good, why = false, "the fallback is not the 405 entry of the matched node on the not-found edge"
+									}
+								default:
+									good, why = false, "unexpected handler alternative "+c.O.Of(e).String()
+								}
+							}
+						}
+					}
+				}
+			}
+			c.R.Add(rule, c.fk(f), "return:tail/served=found(node.handlers,method)", c.pos(r), good, ifelse(good, "served flag is the found bit of the requested method in the returned node's map; handler is that entry, or the node's 405 entry when not found", "the tail return of Tree.Handler does not relate flag, handler and node: "+why))
 			continue
 		}
 		served := okC.Value.ExactString() == "true"
@@ -561,6 +627,7 @@ func ruleParamWriters(c *Ctx, rule string) {
 	for _, b := range a.Backtrackers {
 		isBacktracker[b] = true
 	}
+	fam := matcherFamily(c)
 	writers := map[string]string{"types.(*Context).Set": "set", "types.(*Context).Delete": "delete", "types.(*Context).Reset": "reset"}
 	for _, f := range an.SortedFuncs(reach) {
 		an.AllInstrs(f, func(in ssa.Instruction) {
@@ -572,7 +639,7 @@ func ruleParamWriters(c *Ctx, rule string) {
 			if !ok {
 				return
 			}
-			good := (kind == "set" && f == a.SegmentMatch) || (kind == "delete" && isBacktracker[f])
+			good := (kind == "set" && fam[f]) || (kind == "delete" && isBacktracker[f])
 			c.R.Add(rule, c.fk(f), "param-"+kind, c.pos(in), good, ifelse(good, "owner of this kind of write", "request parameters are written ("+kind+") below Tree.Handler outside the matcher: "+an.Chain(reach, f)))
 		})
 	}
